@@ -1,4 +1,5 @@
 import Psa.AdmitProps
+import Psa.Deps
 /-! # C08 — audit and warn never block and are reported exactly when violated
 Stated on `evaluateObj` (EvaluatePod), for every evaluator, including policies that coincide and share the cached result. -/
 namespace PSA.Props
@@ -66,6 +67,23 @@ example (ev : Ev) (cfg : Config) (p : PodObj) (e w : LevelVersion) (hne : e ≠ 
   rw [C08_warn ev cfg _ _ p _ hrc, evaluateObj_allowed cfg ev _ _ p hrc]
   simp [he, hw]
 
+open PSA.Deps in
+/-- **With the repository's own namespace getters the findings are those of the namespace's labels**: whenever the API server
+    has the namespace with labels `L`, and the informer cache (if there is one) either holds the same object or has not seen it
+    yet, the controller decides pod and controller requests in the world in which the lookup yields `L` — for every request,
+    evaluator and configuration; in particular the audit annotation and the warnings are those of `L`'s policies, never those of
+    a label-less namespace. -/
+theorem C08_real_getters (pv) (cfg : Config) (w : World Ev) (r : Request) (L : Labels)
+    (lister : Option (Lookup Labels)) (hl : lister = none ∨ lister = some .notFound ∨ lister = some (.found L)) :
+    toWorld (getNamespace lister (.found L)).result = .ok L ∧
+    validatePod pv cfg { w with getNs := toWorld (getNamespace lister (.found L)).result } r = validatePod pv cfg { w with getNs := .ok L } r ∧
+    validateController pv cfg { w with getNs := toWorld (getNamespace lister (.found L)).result } r =
+      validateController pv cfg { w with getNs := .ok L } r := by
+  have h : toWorld (getNamespace lister (.found L)).result = .ok L := by
+    rcases hl with rfl | rfl | rfl <;> rfl
+  exact ⟨h, by rw [h], by rw [h]⟩
+
+#print axioms C08_real_getters
 #print axioms C08_nonblocking
 #print axioms C08_audit
 #print axioms C08_warn
